@@ -528,6 +528,172 @@ class Inliner:
         return out
 
 
+# ---------------------------------------------------------------------------------------------------------------------
+# Canonical statement shapes (behaviour preserving, applied to every function of the hand-written modules to a fix-point):
+#   A  `not not c` -> c ; `if not c: A else: B` -> `if c: B else: A`
+#   B  `if a: (if b: X)` with no else on either -> `if a and b: X`
+#   C  `if c: ...raise/return  else: rest` -> `if c: ...raise/return` followed by rest
+#   D  `tmp = E` immediately followed by the only use of tmp -> the use with E in place
+class Canon:
+    def __init__(self):
+        self.counts = {'A': 0, 'B': 0, 'C': 0, 'D': 0}
+
+    def function(self, fn) -> bool:
+        changed = False
+        for _ in range(6):
+            c = self._lists(fn)
+            changed |= c
+            if not c:
+                break
+        return changed
+
+    def _lists(self, fn) -> bool:
+        changed = False
+        uses, defs = self._use_def_counts(fn)
+
+        def strip_not(test):
+            n = 0
+            while isinstance(test, ast.UnaryOp) and isinstance(test.op, ast.Not) and isinstance(test.operand, ast.UnaryOp) and isinstance(test.operand.op, ast.Not):
+                test = test.operand.operand
+                n += 1
+            return test, n
+
+        def do(lst):
+            nonlocal changed
+            i = 0
+            while i < len(lst):
+                st = lst[i]
+                if isinstance(st, (ast.If, ast.While)):
+                    t, n = strip_not(st.test)
+                    if n:
+                        st.test = t
+                        self.counts['A'] += 1
+                        changed = True
+                if isinstance(st, ast.If):
+                    # A
+                    if isinstance(st.test, ast.UnaryOp) and isinstance(st.test.op, ast.Not) and st.orelse and not (len(st.orelse) == 1 and isinstance(st.orelse[0], ast.If)):
+                        st.test = st.test.operand
+                        st.body, st.orelse = st.orelse, st.body
+                        self.counts['A'] += 1
+                        changed = True
+                    # B
+                    if not st.orelse and len(st.body) == 1 and isinstance(st.body[0], ast.If) and not st.body[0].orelse:
+                        inner = st.body[0]
+                        vals = (st.test.values if isinstance(st.test, ast.BoolOp) and isinstance(st.test.op, ast.And) else [st.test]) + \
+                               (inner.test.values if isinstance(inner.test, ast.BoolOp) and isinstance(inner.test.op, ast.And) else [inner.test])
+                        st.test = ast.copy_location(ast.BoolOp(op=ast.And(), values=list(vals)), st.test)
+                        st.body = inner.body
+                        self.counts['B'] += 1
+                        changed = True
+                    # C
+                    if st.orelse and _terminates(st.body) and not (len(st.orelse) == 1 and isinstance(st.orelse[0], ast.If) and False):
+                        rest = st.orelse
+                        st.orelse = []
+                        lst[i + 1:i + 1] = rest
+                        self.counts['C'] += 1
+                        changed = True
+                # D
+                if isinstance(st, ast.Assign) and len(st.targets) == 1 and isinstance(st.targets[0], ast.Name) and i + 1 < len(lst):
+                    name = st.targets[0].id
+                    nxt = lst[i + 1]
+                    if defs.get(name, 0) == 1 and uses.get(name, 0) == 1 and not isinstance(st.value, (ast.Constant, ast.List, ast.Dict, ast.Set, ast.ListComp, ast.DictComp, ast.SetComp, ast.GeneratorExp, ast.Lambda, ast.Yield, ast.Await)) \
+                            and self._single_use_in(nxt, name):
+                        self._replace_use(nxt, name, st.value)
+                        del lst[i]
+                        uses[name] = 0
+                        self.counts['D'] += 1
+                        changed = True
+                        continue
+                for field in ('body', 'orelse', 'finalbody'):
+                    sub = getattr(st, field, None)
+                    if isinstance(sub, list) and sub and isinstance(sub[0], ast.stmt) and not isinstance(st, SCOPES):
+                        do(sub)
+                if isinstance(st, ast.Try):
+                    for h in st.handlers:
+                        do(h.body)
+                i += 1
+        do(fn.body)
+        return changed
+
+    @staticmethod
+    def _use_def_counts(fn):
+        uses, defs = {}, {}
+        for n in ast.walk(fn):
+            if isinstance(n, ast.Name):
+                if isinstance(n.ctx, ast.Load):
+                    uses[n.id] = uses.get(n.id, 0) + 1
+                else:
+                    defs[n.id] = defs.get(n.id, 0) + 1
+            elif isinstance(n, ast.arg):
+                defs[n.arg] = defs.get(n.arg, 0) + 1
+            elif isinstance(n, (ast.Global, ast.Nonlocal)):
+                for x in n.names:
+                    defs[x] = defs.get(x, 0) + 2
+        return uses, defs
+
+    @staticmethod
+    def _single_use_in(stmt, name) -> bool:
+        """the one use is in the header of stmt (not inside a nested block, loop body, comprehension or lambda: those may run 0 or many times)"""
+        if isinstance(stmt, (ast.Assign, ast.AugAssign, ast.AnnAssign, ast.Expr, ast.Return, ast.Raise, ast.Assert)):
+            roots = [stmt]
+        elif isinstance(stmt, (ast.If, ast.While)):
+            if isinstance(stmt, ast.While):
+                return False
+            roots = [stmt.test]
+        elif isinstance(stmt, ast.For):
+            roots = [stmt.iter]
+        else:
+            return False
+        hits = 0
+        for r in roots:
+            stack = [r]
+            while stack:
+                n = stack.pop()
+                if isinstance(n, (ast.ListComp, ast.SetComp, ast.DictComp, ast.GeneratorExp, ast.Lambda, ast.IfExp, ast.BoolOp)):
+                    if any(isinstance(m, ast.Name) and m.id == name for m in ast.walk(n)):
+                        # allowed only as the first iterable of a comprehension (evaluated once, immediately)
+                        if isinstance(n, (ast.ListComp, ast.SetComp, ast.DictComp, ast.GeneratorExp)) and \
+                                any(isinstance(m, ast.Name) and m.id == name for m in ast.walk(n.generators[0].iter)) and \
+                                sum(1 for m in ast.walk(n) if isinstance(m, ast.Name) and m.id == name) == 1:
+                            hits += 1
+                            continue
+                        return False
+                    continue
+                if isinstance(n, ast.Name) and n.id == name and isinstance(n.ctx, ast.Load):
+                    hits += 1
+                stack.extend(ast.iter_child_nodes(n))
+        return hits == 1
+
+    @staticmethod
+    def _replace_use(stmt, name, value):
+        class R(ast.NodeTransformer):
+            def visit_Name(self, node):
+                if node.id == name and isinstance(node.ctx, ast.Load):
+                    return ast.copy_location(copy.deepcopy(value), node)
+                return node
+        if isinstance(stmt, ast.If):
+            stmt.test = R().visit(stmt.test)
+        elif isinstance(stmt, ast.For):
+            stmt.iter = R().visit(stmt.iter)
+        else:
+            R().visit(stmt)
+        ast.fix_missing_locations(stmt)
+
+
+def canonicalise(sm) -> dict:
+    canon = Canon()
+    changed = set()
+    for m in sm.modules.values():
+        if not (m.name.startswith('musicxml') or m.name == 'verysimpletree.tree'):
+            continue
+        for q, node, cls, parent in module_function_quals(m.tree):
+            if parent is not None:
+                continue        # nested functions are reached through their parent's statement lists
+            if canon.function(node):
+                changed.add(m.name)
+    return {'rewrites': canon.counts, 'changed_modules': sorted(changed)}
+
+
 def normalise(sm) -> dict:
     inv = load_inventory()
     if inv is None:
@@ -535,6 +701,8 @@ def normalise(sm) -> dict:
         raise AnalysisError("reference/functions.json (inventory of the functions the rules were written against) is missing")
     inl = Inliner(sm, inv)
     inl.run()
+    can = canonicalise(sm) if os.environ.get('MXSA_NO_CANON') != '1' else {'rewrites': {}, 'changed_modules': []}
+    inl.changed_modules |= set(can['changed_modules'])
     new_funcs = sorted(f"{d[0].relpath}::{d[1]}" for ds in inl.new_defs.values() for d in ds)
     return {'enabled': True, 'functions_not_in_reference_inventory': new_funcs, 'inlined_calls': inl.log, 'calls_left_as_calls': inl.not_inlined,
-            'helpers_removed_after_inlining': getattr(inl, 'dropped', []), 'changed_modules': sorted(inl.changed_modules)}
+            'helpers_removed_after_inlining': getattr(inl, 'dropped', []), 'canonical_rewrites': can['rewrites'], 'changed_modules': sorted(inl.changed_modules)}
